@@ -3,7 +3,7 @@ import json
 import os
 
 from harness import interp_common as ic
-from harness.interp_gen import Gen
+from harness.interp_gen import Gen, gate_inspect
 from harness.props import c03 as _c03
 
 PROP = 'C07'
@@ -26,7 +26,13 @@ RULE = ('spec trees of depth <= 3 (quick) / 4 (thorough) mixing tuple, Pipe, dic
         'of its own, Auto(Val(SKIP)), a Ref definition yielding SKIP) or by a STOP, then by readers of the bound name (bare, '
         'in a dict, in a nested chain, under Coalesce(default=), as call arguments), optionally after an earlier binding of '
         'the same name in the chain, a second binder, a pass-through step between the skips, SKIP as the last step; the '
-        'enumerated stream has every SKIP-yielding shape and every such placement per binder kind; '
+        'enumerated stream has every SKIP-yielding shape and every such placement per binder kind; 8% of the cases '
+        'are chains nested directly as steps of chains (2-3 levels, each level spelled as a tuple or as a Pipe at '
+        'random), a binder at a random level, readers of the bound name at every level after it, optionally an '
+        'earlier binding of the same name at an outer level and sibling inner chains; the enumerated stream runs '
+        'every shape that contains chains in every tuple / Pipe spelling of each chain (all 2^n combinations for '
+        'n <= 3 chains), plus 13 nested-chain shapes (inner binding read by the enclosing chain, shadowing ends '
+        'with the inner chain, two levels, STOP / SKIP inside the inner chain, sibling inner chains); '
         'every call is made twice. Observed: result (hence what '
         'every reader saw), ordered call log, the caller mapping before/after, equality of the two calls. non-trivial = '
         'at least one binder and one reader; distinct = distinct (target, spec, scope)')
@@ -49,7 +55,10 @@ MANIFEST = dict(
           "evaluating to SKIP hands its finished scope on exactly like a step evaluating to a value, only the target of the "
           "rest differs; c07_chain_forward_skip: once a link finished in a scope showing k -> x, every later step of the chain "
           "is evaluated at a scope showing k -> x as long as the steps in between leave k alone, whatever they return; "
-          "c07_skip_then_read: binder, any number of skipped steps, S.k yields the bound value); shadowing, nearest Ref, Spec(scope=) subtree, per-call "
+          "c07_skip_then_read: binder, any number of skipped steps, S.k yields the bound value); a chain has a scope of its own, "
+          "tuple or Pipe, also when it is directly a step of another chain (c07_pipe_own_scope, c07_plain_own_scope, "
+          "c07_inner_chain_bindings_end: the scope handed to the step after an inner chain shows exactly what the scope handed to "
+          "the inner chain showed -- inlining the inner steps is not equivalent); shadowing, nearest Ref, Spec(scope=) subtree, per-call "
           "fresh globals. The scope-generic interpreter model is tied to /repo by differential execution of (target, spec, "
           "scope) cases (result, call log, caller mapping before/after, two consecutive calls) through the compiled Lean "
           "driver."),
@@ -367,7 +376,7 @@ def generate(rng, tier, scale, **focus):
             yield gen_optdefault(rng)
             continue
         g = Gen(rng, {'extra': ['bindchain', 'bindchain', 'bindchain', 'reader', 'reader', 'binder', 'and', 'not',
-                                'switch', 'matchdict', 'ref', 'skipchain'], 'scope': True})
+                                'switch', 'matchdict', 'ref', 'skipchain', 'nestbind', 'inspect'], 'scope': True})
         t = g.target()
         depth = rng.choice([1, 2, 2, 3]) if tier == 'quick' else rng.choice([2, 3, 3, 4])
         spec = g.spec(t, depth)
@@ -380,11 +389,14 @@ def generate(rng, tier, scale, **focus):
         elif q < 0.55:
             # binder, step(s) evaluating to SKIP (or STOP), readers
             spec = g.s_skipchain(t, depth)
+        elif q < 0.63:
+            # chains nested directly in chains (tuple / Pipe in every combination), binder at a random level
+            spec = g.s_nestbind(t, depth)
         scope = []
         if rng.random() < 0.4:
             for name in rng.sample(g.POOL, rng.randint(1, 2)):
                 scope.append([name, ic.enc(rng.choice([1, 'cs', None, [1, 2]]))])
-        yield {'spec': spec, 'target': ic.enc(t), 'scope': scope}
+        yield {'spec': gate_inspect(spec), 'target': ic.enc(t), 'scope': scope}
 
 
 def corpus():
